@@ -500,8 +500,15 @@ func spanHoldsLaterLines(before []tb, s, e int) bool {
 // noteRemove: the removed span starts with a comment that ends the line of the token before it (the
 // comment after a block's opening brace is held by the block's first item as a lead comment).
 func noteRemove(slot *string, before []tb, s int) {
-	if s > 0 && s < len(before) && !isLineEnd(before[s-1]) && before[s].T == hclsyntax.TokenComment && isLineEnd(before[s]) && *slot == "" {
-		*slot = causeRemoveCmt
+	if s <= 0 || s >= len(before) || isLineEnd(before[s-1]) || *slot != "" {
+		return
+	}
+	// (inline /* */ comments may stand between the brace and the comment that ends its line)
+	for i := s; i < len(before) && before[i].T == hclsyntax.TokenComment; i++ {
+		if isLineEnd(before[i]) {
+			*slot = causeRemoveCmt
+			return
+		}
 	}
 }
 
